@@ -34,7 +34,7 @@ Tick(j) == <<cBTICK>> \o j \o <<cBTICK>>
 
 DocText(l, r) == <<123, 34, 97, 34, 58>> \o l \o <<44, 34, 98, 34, 58>> \o r \o <<125>>
 
-Cases(z) ==
+Cases(zzdummy) ==
   LET pairs == SetToSeq({<<i, j>> : i \in DOMAIN Pool, j \in DOMAIN Pool})
   IN [x \in DOMAIN pairs |-> [e |-> "cmp", text |-> SixOf(<<97>>, <<98>>), doctext |-> DocText(Pool[pairs[x][1]], Pool[pairs[x][2]])]]
      \o [x \in DOMAIN pairs |-> [e |-> "cmp", text |-> SixOf(Tick(Pool[pairs[x][1]]), Tick(Pool[pairs[x][2]])), doctext |-> <<48>>]]   \* any non-null document
